@@ -127,6 +127,15 @@ static void check_query(long caseno) {
     else { int i = 0; for (qlisttbl_obj_t *o = t->first; o; o = o->next, i++)
              if (strcmp(o->name, names[i]) || o->size != strlen(vals[i]) + 1 || strcmp(o->data, vals[i])) { vf_viol("C16", "query-pair", "pair %d parsed as (%s,%s), assembled (%s,%s)", i, vf_hex(o->name, strlen(o->name)), vf_hex(o->data, o->size), vf_hex(names[i], strlen(names[i])), vf_hex(vals[i], strlen(vals[i]))); break; } }
     if (strcmp(q, qx)) vf_viol("C16", "query-input-modified", "qparse_queries modified the caller's query string");
+    /* second call into the same (caller-supplied, now non-empty) table, and without the optional counter: the count is that of this call, the pairs are appended in order */
+    if (t->lookupforward == false && t->inserttop == false) {
+        int cnt2 = -1; qlisttbl_t *t2 = qparse_queries(t, qx, eq, sep, (caseno & 1) ? &cnt2 : NULL);
+        if (t2 != t) vf_viol("C16", "query-table", "qparse_queries did not return the table it was given");
+        else if (((caseno & 1) && cnt2 != np) || t->size(t) != (size_t)(2 * np)) vf_viol("C16", "query-count-second-call", "second call reported %d pairs (table size %zu), the query holds %d and the table held %d", cnt2, t->size(t), np, np);
+        else { int i = 0; for (qlisttbl_obj_t *o = t->first; o; o = o->next, i++) if (strcmp(o->name, names[i % np]) || strcmp(o->data, vals[i % np])) { vf_viol("C16", "query-pair", "after a second call entry %d is (%s,%s)", i, vf_hex(o->name, strlen(o->name)), vf_hex(o->data, o->size)); break; } }
+        int cnt3 = -1; qparse_queries(t, "", eq, sep, &cnt3); if (cnt3 != 0) vf_viol("C16", "query-count-empty", "an empty query reported %d pairs", cnt3);
+        vf_count("query_second_calls", 1);
+    }
     t->free(t);
     hm_free(q); hm_free(qx);
     vf_count("query_lists", 1); vf_count("evaluations", 1);
